@@ -34,6 +34,11 @@ theorem gen_skel_accessor_plumbing :
     skel_accessor_number = Skel.accessor_number ∧ skel_unregister_accessor = Skel.unregister_accessor ∧
     skel_accessor_lock = Skel.accessor_lock ∧ skel_accessor_unlock = Skel.accessor_unlock ∧
     skel_accessor_release = Skel.accessor_release := by decide
+/-- repaired shape of `unregister_accessor` (fix 6566b0b): an Accessor released inside a region first
+closes the region (`lock_times = 0`, release store of `UINT64_MAX`), then returns the id -/
+theorem gen_unregister_closes_region :
+    unregisterClosesOpenRegion = true ∧ unregisterDepthAfter = 0 ∧ unregisterStoresMax = true ∧
+    releaseStoreOrd = .rel := by decide
 theorem gen_skel_low_water_mark : skel_low_water_mark = Skel.low_water_mark := by decide
 theorem gen_skel_ensure_slow : skel_ensure_slow = Skel.ensure_slow ∧ ensureCasStrong = true := by decide
 /-- the preprocessor of this build selects the x86 branch of `tick`: one `seq_cst` RMW -/
@@ -204,6 +209,38 @@ theorem epoch_released_never_holds (c : Cfg) (o : Orders) (hbs : 0 < c.bs) (ho :
   cases hm'
   rw [hv', hval]
 
+/-- … unconditionally for a released Accessor: whenever `Accessor::release` / `~Accessor` has returned
+the id (the slot is free), in whatever state the Accessor was released — inside a (nested) region or
+not — the slot's latest version is `UINT64_MAX`, its region is closed, its nesting counter is 0, and
+every thread whose view includes the release reads `UINT64_MAX` from it. -/
+theorem epoch_released_accessor_never_holds (c : Cfg) (o : Orders) (hbs : 0 < c.bs) (ho : o.Safe) (s : State)
+    (hr : Reach c o s) (i : Nat) (hfree : s.own i = .free) :
+    s.fv i = none ∧ s.lt i = 0 ∧
+    (∃ msg, (s.mem.hist (.slot i))[s.mem.len (.slot i) - 1]? = some msg ∧ msg.val = MAX) ∧
+    ∀ t ts oo m' v, s.av i ≤ s.cur t → s.mem.read t (.slot i) oo ts = some (m', v) → v = MAX := by
+  have inv := inv_reachable c o hbs ho s hr
+  obtain ⟨_, _, _, _, hlt, hfv⟩ := inv.free i hfree
+  have hno : ∀ t, (s.pc t).lk3At i = false := fun t => by
+    cases h : (s.pc t).lk3At i with
+    | false => rfl
+    | true =>
+      have := uses_own (inv.pcs t) (Pc.lk3At_uses h)
+      rw [hfree] at this; cases this
+  obtain ⟨h1, h2⟩ := epoch_released_never_holds c o hbs ho s hr i hfv hno
+  exact ⟨hfv, hlt, h1, h2⟩
+
+/-- `Accessor::release` may be called at any time by the holder — there is no "no region open"
+precondition any more — and always ends with the slot free: the release steps are
+`_slots[i]` → (region open: `lock_times = 0`, store `UINT64_MAX`) → `deallocate(i)`. -/
+theorem epoch_release_closes_region (c : Cfg) (o : Orders) (s s' : State) (t i : Nat) (l : Label)
+    (hpc : s.pc t = .rl1 i) (hstep : stepThread c o s t 0 = some (s', l)) :
+    s'.fv i = none ∧ s'.lt i = 0 ∧ s'.pc t = .rl2 i ∧ l = .st "slot" i o.releaseStore MAX := by
+  unfold stepThread at hstep
+  rw [hpc] at hstep
+  simp only at hstep
+  cases hstep
+  simp [unregisterDepthAfter, actSt, Loc.name]
+
 /-- the hypotheses of `epoch_released_never_holds` hold for an unlocked, a released and a never
 allocated slot -/
 theorem epoch_unlocked_is_closed (c : Cfg) (o : Orders) (hbs : 0 < c.bs) (ho : o.Safe) (s : State) (hr : Reach c o s)
@@ -248,6 +285,44 @@ theorem epoch_unlock_scan_hb (m : Mem Loc) (reader scanner i : Nat) (o o' : Core
 
 /-- the orders of the source give that edge -/
 theorem gen_unlock_scan_orders : genOrders.unlockStore.releases = true ∧ genOrders.scanSlot.acquires = true := by decide
+
+/-! ### The memory model really is weak: store buffering -/
+
+/-- store buffering: `x = y = 0`; thread 1: `x := 1; r1 := y`; thread 2: `y := 1; r2 := x`, with store
+order `so`, load order `lo` and an optional fence between store and load; the loads try to read the
+INITIAL messages.  `some (0, 0)` = that execution exists in the view model. -/
+def sbRun (so lo : Core.Ord) (fence : Option Core.Ord) : Option (Nat × Nat) :=
+  let m0 : Mem Nat := Mem.init (fun _ => 0)
+  let m1 := m0.write 1 0 so 1
+  let m1 := match fence with | some f => m1.fence 1 f | none => m1
+  let m2 := m1.write 2 1 so 1
+  let m2 := match fence with | some f => m2.fence 2 f | none => m2
+  match m2.read 1 1 lo 0 with
+  | none => none
+  | some (m3, r1) =>
+    match m3.read 2 0 lo 0 with
+    | none => none
+    | some (_, r2) => some (r1, r2)
+
+/-- both threads may read 0 with relaxed accesses, with release/acquire accesses, and even with
+acquire-release fences in between — the model exhibits the store-buffer delay the property is about;
+with `seq_cst` fences that execution does not exist -/
+theorem memview_store_buffering :
+    sbRun .rlx .rlx none = some (0, 0) ∧ sbRun .rel .acq none = some (0, 0) ∧
+    sbRun .rel .acq (some .acqrel) = some (0, 0) ∧ sbRun .rlx .rlx (some .sc) = none := by decide
+
+/-- in general: of two threads that each store and then execute an SC fence, the one whose fence
+comes second reads the other's store (or a later one) — for every memory, every order of the
+accesses, whatever else happens in between -/
+theorem memview_sc_fences_forbid_store_buffering {L : Type} [DecidableEq L] (m : Mem L) (a b : Nat) (x y : L)
+    (o1 o2 o3 : Core.Ord) (v w : Nat) {m2 m3 m4 : Mem L} {ts r : Nat}
+    (h1 : ((m.write a x o1 v).fence a .sc).Ext m2)
+    (h2 : ((m2.write b y o2 w).fence b .sc).Ext m3)
+    (h3 : m3.read b x o3 ts = some (m4, r)) : m.len x ≤ ts := by
+  have h := sc_fence_dekker_read (m.write a x o1 v) a b x o3 ts r
+    (h1.trans (Mem.write_ext m2 b y o2 w)) h2 h3
+  simp [TView.wrote] at h
+  omega
 
 /-! ### The sequentially consistent corollary -/
 
@@ -398,5 +473,17 @@ example : observe cfgCE genOrders (heldBackSchedule ++ [
     (fun s => s.ret 2 == some MAX && s.recl 1 && (match s.fv 0 with
        | some V => decide (s.pv 1 ≤ V) && s.pub 0 == 1
        | none => false)) = true := by decide
+
+/-- an Accessor released inside a nested region: the slot is free, closed and holds `UINT64_MAX`;
+the next accessor reuses it and publishes when it locks -/
+example : observe cfgCE genOrders [
+      .create 1, .act 1 0, .act 1 0,
+      .lock 1 0, .act 1 0, .act 1 0, .act 1 0, .act 1 0,
+      .lock 1 0, .act 1 0,
+      .release 1 0, .act 1 0, .act 1 0, .act 1 0,
+      .tick 2, .act 2 0,
+      .create 3, .act 3 1, .act 3 0,
+      .lock 3 0, .act 3 0, .act 3 1, .act 3 0, .act 3 0]
+    (fun s => s.own 0 == .held 3 && s.lt 0 == 1 && s.pub 0 == 1 && (s.fv 0).isSome) = true := by decide
 
 end Babylon.Properties.C09
